@@ -26,19 +26,19 @@ func (r Result) String() string { return [...]string{"unsat", "sat", "unknown"}[
 
 // Solver is a long-lived `z3 -in` (or cvc5 --incremental) process.
 type Solver struct {
-	Kind    string // "z3", "z3-new", "cvc5", "cvc5-int"
-	cmd     *exec.Cmd
-	in      io.WriteCloser
-	out     *bufio.Reader
-	mu      sync.Mutex
-	Queries int
-	NSat    int
-	NUnsat  int
-	NUnk    int
-	Time    time.Duration
-	Errors  []string
+	Kind      string // "z3", "z3-new", "cvc5", "cvc5-int"
+	cmd       *exec.Cmd
+	in        io.WriteCloser
+	out       *bufio.Reader
+	mu        sync.Mutex
+	Queries   int
+	NSat      int
+	NUnsat    int
+	NUnk      int
+	Time      time.Duration
+	Errors    []string
 	TimeoutMs int
-	Log     io.Writer // optional: every script sent
+	Log       io.Writer // optional: every script sent
 }
 
 func solverArgv(kind string) []string {
